@@ -74,4 +74,13 @@ def c12Reverse (x y b c o : Nat) : Bool :=
   -- o ≤ x*y/(y - b/(1-γ)) - x   ⟸   (o + x) * (y*(E-c) - b*E) ≤ x*y*(E-c)
   decide ((o + x) * (y * (E - c) - b * E) ≤ x * y * (E - c))
 
+/-- C12, reverse simulation, lower side: `o > x·y/(y − b/(1−γ) + b·10⁻¹⁸ + 1) − x − 1`
+(the rounding of `1/(1−γ)`, of `ask·inv` and of the final quotient). -/
+def c12ReverseLower (x y b c o : Nat) : Bool :=
+  decide (x * y * E * (E - c) + (o + x + 1) * b * E * E <
+          (o + x + 1) * (y * E * (E - c) + b * (E - c) + E * (E - c)))
+
+/-- domain of the closed form: `c < 1` and `ask/(1−c) < y` -/
+def c12Domain (y b c : Nat) : Bool := decide (c < E) && decide (b * E < y * (E - c))
+
 end Halo.Spec
